@@ -344,6 +344,14 @@ Fixpoint tc_form (g : ctx) (shadow : option name) (pty : option sty) (f : form) 
       | None => TErr "function is undefined"
       | Some sg =>
         tdo fty <- unfold_opt D (fs_type sg);
+        tdo _ <- (match nty x with
+                  | None => TOk tt
+                  | Some xt =>
+                    tdo xt1 <- lift (add_missing D xt);
+                    tdo _ <- guard (check_wf D xt1) "invalid type for the new name";
+                    tdo e <- equal_opt D (Some xt1) fty;
+                    if e then TOk tt else match fty with Some _ => TErr "annotation differs from the type the function provides" | None => TPanic "nil in message" end
+                  end);
         tdo _ <- indep_all (map snd gl) fty;
         tdo body' <- tc_form gl (Some x) fty body;
         let gr1 := aset (ident x) fty gr in
